@@ -1,0 +1,16 @@
+//go:build verif
+
+package sequence
+
+// Exports for the verification harness (property C06). Not part of normal builds.
+
+// VerifParseMatch exposes parseMatch.
+func VerifParseMatch(s string) (tag, typ, args string, reverse bool) {
+	mc := parseMatch(s)
+	return mc.Tag, mc.Type, mc.Args, mc.Reverse
+}
+
+// VerifParseExec exposes parseExec.
+func VerifParseExec(s string) (tag, typ, args string) {
+	return parseExec(s)
+}
